@@ -155,6 +155,8 @@ static void String_Assign(var self, var obj) {
   struct String* s = self;
   char* val = c_str(obj);
   
+  if (val is s->val) { return; }
+  
 #if CELLO_ALLOC_CHECK == 1
   if (header(self)->alloc is (var)AllocStack
   or  header(self)->alloc is (var)AllocStatic) {
